@@ -111,14 +111,20 @@ class DBusClientConnection (txdbus.protocol.BasicDBusProtocol):
         # an errback may issue further calls on this connection (a retry):
         # the table is detached before it is walked, and whatever was added
         # meanwhile is failed in turn
-        while self._pendingCalls:
-            pending, self._pendingCalls = self._pendingCalls, {}
-            for d, timeout in pending.values():
-                if timeout:
-                    timeout.cancel()
-                d.errback(reason)
+        def failPendingCalls():
+            while self._pendingCalls:
+                pending, self._pendingCalls = self._pendingCalls, {}
+                for d, timeout in pending.values():
+                    if timeout:
+                        timeout.cancel()
+                    d.errback(reason)
+
+        failPendingCalls()
 
         self.objHandler.connectionLost(reason)
+
+        # the disconnect callback of a remote object may have issued calls too
+        failPendingCalls()
 
     def notifyOnDisconnect(self, callback):
         """
